@@ -1802,7 +1802,7 @@ and the hypotheses are gone or weakened; the former counter-example theorems are
   stripped by the short-format reader;
 * a multi-line tier NAME (A32, fixed ae33f8b): read by both readers (`long_short_name_newline_regression`).  Before:
   `ParsingError` in the long-format one.  What the intermediate hypothesis `NameRowFree` still excluded — a name LINE that reads like
-  the tier's span row — was defect A33 (fixed d9005cc: the span rows are searched behind the name): `long_short_name_row_regression`.
+  the tier's span row — was defect A33 (fixed c86c7a5: the span rows are searched behind the name): `long_short_name_row_regression`.
 -/
 
 /-- **a signed numeral on ANY numeric row** (`xmin`, `xmax` of a tier or an interval, `number` of a point — pattern
@@ -1977,7 +1977,7 @@ theorem long_short_name_newline_regression :
     C01.parseLong_name_newline_regression
   exact ⟨nlNameTg_short, hL, by rw [hL, nlNameTg_short]⟩
 
-/-- **a multi-line name with a line that reads like the tier's `xmin` row, regression for A33 (fixed, d9005cc)**: the short file
+/-- **a multi-line name with a line that reads like the tier's `xmin` row, regression for A33 (fixed, c86c7a5)**: the short file
 AND the long file are read back exactly, to equal textgrids (`long_short_equal` has no hypothesis on names beyond the A10
 keywords).  Before the fix the long-format reader took the name's line `xmin = 1` for the tier's span row, silently. -/
 theorem long_short_name_row_regression :
